@@ -1,5 +1,5 @@
 """Per-property wording for MANIFEST.json."""
-HOOK_COMMITS = ["146c602"]
+HOOK_COMMITS = ["146c602", "100f0bc"]
 NOTES = ("Technique: machine-checked proof in Coq 8.16.1 about a hand-written executable model, tied to /repo by a "
          "correspondence check (extracted OCaml model vs. the Go implementation on the same inputs) that runs on "
          "every check.  See DESIGN.md.")
@@ -26,6 +26,71 @@ TEXT = {
                  "constructor-built packets of all 28 types on every run.",
         "note": COMMON_NOTE,
         "technique": "Coq theorem over all packet values in legal ranges + differential execution against Pack/ReadPacket",
+    },
+    "C22": {
+        "level": "Theorem C22_decoded_reflects_datagram: for every byte string the decoder model accepts, the decoded packet is "
+                 "what an independent positional reference parser (written from the MQTT-SN tables, header form chosen by the "
+                 "first octet, flags by bit position) reads, and re-encoding reproduces type and body up to mask_ignored. The "
+                 "decoder/encoder models are compared with ReadPacket/Pack on every run and the reference parser is applied to "
+                 "the implementation's own decoded fields.",
+        "note": COMMON_NOTE,
+        "technique": "Coq theorem relating the decoder model to an independent reference parser + differential execution",
+    },
+    "C29": {
+        "level": "Theorems C29_*: the sequential specification of IDSequence for all ranges (j-th call = min + j mod n, overflow "
+                 "exactly after a wrap, no duplicates in a cycle), the map laws of the store and independence of its two key "
+                 "spaces, and that every schedule of atomic calls is the sequential history. Atomicity of each call rests on the "
+                 "lock skeleton regenerated from the source on every run (whole method body under Lock/defer Unlock).",
+        "note": COMMON_NOTE + " Partial: linearizability rests on Go mutex semantics plus the skeleton check, not on a proof about the Go memory model.",
+        "technique": "Coq theorems (induction over calls, map laws) + lock-skeleton extraction from source + differential execution incl. concurrent callers",
+    },
+    "C18": {
+        "level": "Theorems C18_*: over ALL event sequences of the transaction model — where an event is one mutex-protected region "
+                 "and EvFire is the timer callback body running at an arbitrary moment (stale or early) — completion happens at "
+                 "most once, and once done Err, the completion count, the callback count and the timer are frozen. The schedule "
+                 "quantifier is carried by the lock skeleton regenerated from transactions/*.go; sequential behaviour is compared "
+                 "with the real types under synctest.",
+        "note": COMMON_NOTE + " Partial: interleavings are over mutex-region atomicity; data races are outside the model (sleepTransaction's unsynchronised timer field is a known finding).",
+        "technique": "Coq invariant over all event sequences incl. arbitrary timer firings + lock-skeleton extraction + differential execution",
+    },
+    "C19": {
+        "level": "Theorems C19_*: for all retry counts and delays, callbacks at exactly t0+k*delay (k=1..count) and failure with "
+                 "'no more retries' at t0+(count+1)*delay, progress resets the budget, time slicing is irrelevant, a timed "
+                 "transaction times out exactly at its timeout. Virtual timestamps of the real transactions under synctest are "
+                 "compared exactly with the model.",
+        "note": COMMON_NOTE,
+        "technique": "Coq theorems by induction on the retry budget + differential execution with exact virtual timestamps",
+    },
+    "C27": {
+        "level": "Theorem C27_match_is_mqtt_matching: the client's matcher decides the MQTT 3.1.1 matching relation for every "
+                 "well-formed filter and every name (by induction); dispatch candidates are exactly the stored matching routes; "
+                 "a removed route's callback is no candidate. client.match is compared exhaustively over a small alphabet and "
+                 "the client model (subscribe/unsubscribe/deliver) with the real client.",
+        "note": COMMON_NOTE,
+        "technique": "Coq theorem (matcher = inductive MQTT matching relation) + exhaustive small-alphabet comparison + client correspondence",
+    },
+    "C30": {
+        "level": "Theorems C30_*: one function tool_cfg describes all three tools; its result is the file's map overridden entry by "
+                 "entry by the options, later options win, options without client ID land under '*'. The call-site skeleton of "
+                 "the three actions.go is regenerated from source and the real binaries are run on generated files/options, "
+                 "observing topic IDs / names on the wire.",
+        "note": COMMON_NOTE + " YAML and flag parsing libraries are exercised, not modelled.",
+        "technique": "Coq theorems over finite maps + call-site skeleton extraction + running the three binaries over loopback",
+    },
+    "C31": {
+        "level": "Theorems C31_*: the start-up guards imply that auth/user without DTLS requires --insecure; guard expressions "
+                 "are regenerated from source; the binaries are run with all flag/env combinations; the client model sends AUTH "
+                 "right after every CONNECT iff a user is configured (checker on real client traces).",
+        "note": COMMON_NOTE,
+        "technique": "Coq theorems on the guard functions + guard skeleton extraction + running the binaries + client correspondence",
+    },
+    "C32": {
+        "level": "Theorem C32_routing_consistent: for every shared configuration an ID derived from a name (any map order) or a "
+                 "short ID is resolved back to that name by the gateway model, and the (type, ID) the gateway model picks is "
+                 "resolved to the broker's name by the client model (corollary of C05 and the short-topic bijection of C21). "
+                 "Tied by the topics, codec and CLI correspondences (real bisquitt-pub/-sub vs real gateway).",
+        "note": COMMON_NOTE,
+        "technique": "Coq corollary across the client and gateway models + differential execution of topics/codec + CLI cross-check",
     },
     "C14": {
         "level": "Theorem C14_step: from ANY session state of the gateway model, a step writes an MQTT DISCONNECT only when "
